@@ -718,6 +718,9 @@ func (x *rfx) returnsTyped(fn *ssa.Function, want string) (bool, string) {
 			if definitelyError(ret.Results[len(ret.Results)-1]) {
 				continue // an error return: the value is not used by callers that test err
 			}
+			if k, ok := ret.Results[len(ret.Results)-1].(*ssa.Const); ok && k.Value != nil && k.Value.Kind() == constant.Bool && !constant.BoolVal(k.Value) {
+				continue // the comma-ok form of the same: `return reflect.Value{}, false`
+			}
 		}
 		n++
 		got, why := x.typedTo(ret, ret.Results[0], 0)
